@@ -13,3 +13,5 @@ def run(prog, rep):
     v = r_val.run(prog, rep)
     val_ok = all(i.status == 'ok' for i in v.instances)
     r_mbt.run(prog, rep, val_ok)
+    from ..rules import r_order as _ro
+    _ro.run_name_first(prog, rep)
